@@ -1066,7 +1066,7 @@ def render (x : Sem.St × Sem.Env × Sem.Res Unit) : Sem.Outcome :=
     | .unspecified w => "unspecified:" ++ w
     | .outOfFuel => "unspecified:out of fuel"
   { result := res, globals := s.globals.map (fun (n, v) => (n, Sem.deepV s v)), log := s.log,
-    stmtValue := s.stmtValue }
+    stmtValue := s.stmtValue, fewArgs := s.fewArgs }
 
 theorem joinNs_nil (n : String) : Sem.joinNs [] n = n := by
   simp [Sem.joinNs, String.join]
